@@ -18,6 +18,7 @@ type Collector struct {
 	samples []any
 	evals   int64
 	dist    []string
+	probs   int
 }
 
 // NewCollector returns a collector writing to w.
@@ -26,7 +27,17 @@ func NewCollector(w *Writer) *Collector {
 }
 
 func (c *Collector) Violation(caseID, sig, text string, detail any) {
+	c.mu.Lock()
+	c.probs++
+	c.mu.Unlock()
 	c.w.Record(map[string]any{"kind": "problem", "case": caseID, "sig": sig, "text": text, "detail": detail})
+}
+// Problems returns the number of violations recorded so far (a child that has
+// reported several stops early: every further one costs watchdog time and adds nothing).
+func (c *Collector) Problems() int {
+	c.mu.Lock()
+	defer c.mu.Unlock()
+	return c.probs
 }
 func (c *Collector) Inconclusive(text string) {
 	c.w.Record(map[string]any{"kind": "inconclusive", "text": text})
